@@ -3324,6 +3324,12 @@ class _MemoAnalysis:
                 params, va, kw = _param_names(fn)
                 if va or kw:
                     raise Untranslatable("*args/**kwargs in memoised method " + name)
+                # the key contains `self`: by identity only if no class of the MRO overrides
+                # equality / hashing
+                for dunder in ("__eq__", "__hash__"):
+                    if self.tab.method(cls, dunder) is not None:
+                        raise Untranslatable("class %s defines %s: lru_cache on %s() no longer keys on "
+                                             "the object's identity" % (cls, dunder, name))
                 return params, [], "module"
             if isinstance(d, ast.Name) and d.id in self.tab.functions:
                 hit2 = _key_decorator(self.tab, d.id)
